@@ -332,7 +332,12 @@ pub fn check(sc: &Scenario, out: &RunOutput) -> OracleResult {
         }
         let handshake_answered = p_fin_in_seq.is_some() && e_fin.is_some();
         let err = death_at.as_ref().is_some_and(|(_, e)| e.is_some());
-        if !handshake_answered && !e_fin_acked && !err && ended.is_some() {
+        // (dont_wait_for_lastack: a peer FIN in sequence ends the connection at once; a RESET
+        // that arrives behind it finds nothing left to abort)
+        let ended_by_fin = sc.nodes[0].opts.dont_wait_lastack && p_fin_in_seq.is_some_and(|(tp, pidx, _)| reset_delivered.is_some_and(|(tr, ridx)| tp < tr || (tp == tr && pidx < ridx)));
+        // (a peer that acknowledged a FIN the endpoint had not sent yet closed the handshake
+        // in the endpoint's eyes before the RESET's turn)
+        if !handshake_answered && !e_fin_acked && !err && ended.is_some() && !ended_by_fin && !hostile_ack_any {
             res.violate(P, "reset-without-error", tr, "ST_RESET ended the connection without an error although the close handshake had not been answered".into());
         }
     }
